@@ -476,6 +476,9 @@ func runC20(r *core.Run) *core.Violation {
 	w := c.w
 	own := []string{"C20"}
 	steps := 15 + r.Intn(40)
+	if r.Tier == "thorough" && r.Chance(1, 4) {
+		steps *= 3
+	}
 	for s := 0; s < steps; s++ {
 		i := r.Intn(len(c.nodes))
 		switch r.Weighted([]int{6, 6, 3, 4, 1}) {
